@@ -10,8 +10,10 @@ FAM = ("Grammars are an enumerated family regenerated on every run with the peg 
        "(N=5 quick, 6-7 thorough; one more on the curated shapes), each rune any Unicode scalar value, and over the predicate switches. A long-input layer (11 loop/recursion grammars, one with 260 rules) adds inputs of "
        "17..260 runes (thorough: up to 1000, and 65535/65536 where the token count is constant) that are a concrete filler except for two arbitrary runes. ")
 ORACLE = "Oracle: an independent ~300-line transcription of PEG semantics (vhlib/ref) executed symbolically on the same input. "
-def g(text, extra=""):
-    return dict(text=text, note=NOTE_COMMON + FAM + extra, design="DESIGN.md 4")
+FAM_SMALL = ("Grammars: the curated shapes, the long-input layer and a seeded sample of the rest of the family (about 120 grammars quick, 380 thorough), regenerated on every run with the peg built from /repo's working tree; "
+             "each fully symbolic input has 0..3 runes (any Unicode scalar value). ")
+def g(text, extra="", fam=None):
+    return dict(text=text, note=NOTE_COMMON + (fam or FAM) + extra, design="DESIGN.md 4")
 checks = {
  "C01": g("Bounded symbolic model checking of each generated parser (default options): for every family grammar, every entry rule and every input up to N runes the verdict and the consumed prefix equal the reference PEG semantics. " + ORACLE +
           "Right level: restore/lookahead/range-bound mistakes only show on particular inputs, which are solver variables here; the grammar dimension cannot be symbolic because the generator emits text."),
@@ -23,11 +25,11 @@ checks = {
  "C07": g("The four -noast variants are run next to the default parser: verdicts must agree on every path; for -noast and -noast -inline the inline action trace (action number, text) must equal the reference's evaluation-order trace; under -switch each event's text must be a span of the input."),
  "C11": g("Failing paths: err != nil iff the reference rejects; the error token equals the reference's first non-empty token reaching the furthest end and lies in the input; Error() is executed symbolically (fmt/Quote modelled) and must name the rule, the 1-based line/column of begin and end (newline placement is a solver variable) and quote exactly input[begin:end]; also after Reset with a second input."),
  "C12": g("One long-lived parser is fed 2 (thorough: 3) independent symbolic inputs via Buffer/Reset and compared step by step (verdict, tokens, action trace, printed tree, error token and message) with a fresh parser; Size in {unset,1,64}; the four instantiations uint16/uint32/uint64/uint x Size {unset,0,1,64} must agree.",
-          "Histories of <= 3 fully symbolic inputs of <= 3 runes; on the long-input layer also reuse across lengths (L then 2, 2 then L, L twice) and the narrow instantiations at the edge of their range: uint8 at 100..255 runes, uint16 at 255..300 (thorough 65534, 65535), compared with uint32. 'Fits U' is read as: rune count and token count fit. "),
+          "Histories of <= 3 fully symbolic inputs of <= 3 runes (some also with memoisation disabled); on the long-input layer also reuse across lengths (L then 2, 2 then L, L twice) and the narrow instantiations at the edge of their range: uint8 at 100..255 runes, uint16 at 255..300 (thorough 65534, 65535), compared with uint32. 'Fits U' is read as: rune count and token count fit. ", fam=FAM_SMALL),
  "C13": g("All eight option sets of every family grammar are run on every input up to N runes (incl. U+0000, U+FFFD, non-BMP, U+10FFFF as solver-chosen values): any Go panic (nil dereference, index/slice out of range) on any path is a violation; token and error-token spans must lie in [0, len(runes)]; Error(), the printers and Execute are exercised.",
           "'Very long' is covered only through the long-input layer (all but two runes concrete); fully symbolic inputs have N <= 7. Thorough also runs the shipped calculator/fexl/longtest grammars (no panic, spans inside the input). "),
  "C14": g("Two instances (same parser type, two different parser packages, and two instances initialised with the SAME option values) make their API calls (init, parse, execute/print/error) in every merge order of the enumerated set; each instance's observables must equal its run-alone observables and the actors' heap footprints must be write-disjoint.",
-          "Non-interference argument (disjoint write footprints => any real schedule is equivalent to a sequential one), not scheduler exploration; sync.Pool is modelled as handing out the most recently Put item. "),
+          "Non-interference argument (disjoint write footprints => any real schedule is equivalent to a sequential one), not scheduler exploration; sync.Pool is modelled as handing out the most recently Put item. ", fam=FAM_SMALL),
  "C10": dict(
    text="The shipped front end (peg.peg.go with the real tree-builder actions) is executed symbolically on 27 templates of documented constructs whose 1-3 hole characters are solver variables (any code point), and on K arbitrary characters after a valid header, inside an action, inside a class and after the last rule; "
         "next to it an independent recursive-descent reader of the documented syntax (vhlib/pegread) runs on the same text: accept/reject must agree, the tree reachable through the exported accessors must denote what the reader denotes "
